@@ -7,14 +7,15 @@ from . import tlc, build, mgr_replay as mr
 from .common import SPEC, Machinery, Verdict, seed, tier as get_tier
 
 GEN = os.path.join(SPEC, "gen")
-VARIANTS = {"core": ("FALSE", "FALSE"), "extras": ("FALSE", "TRUE"), "faults": ("TRUE", "FALSE"), "all": ("TRUE", "TRUE")}
+VARIANTS = {"core": ("FALSE", "FALSE", "FALSE"), "extras": ("FALSE", "TRUE", "FALSE"), "faults": ("TRUE", "FALSE", "FALSE"),
+            "all": ("TRUE", "TRUE", "FALSE"), "xfer": ("FALSE", "FALSE", "TRUE"), "xfer_extras": ("FALSE", "TRUE", "TRUE")}
 
 
 def mkcfg(universe, variant, depth, emitidx=True):
     os.makedirs(GEN, exist_ok=True)
-    faults, extras = VARIANTS[variant]
+    faults, extras, transfers = VARIANTS[variant]
     txt = open(os.path.join(SPEC, "Manager.cfg.tmpl")).read()
-    txt = (txt.replace("@FAULTS@", faults).replace("@EXTRAS@", extras).replace("@DEPTH@", str(depth))
+    txt = (txt.replace("@FAULTS@", faults).replace("@EXTRAS@", extras).replace("@TRANSFERS@", transfers).replace("@DEPTH@", str(depth))
            .replace("@EMITIDX@", "TRUE" if emitidx else "FALSE"))
     p = os.path.join(GEN, f"MC_{universe}_{variant}_{depth}.cfg")
     with open(p, "w") as f:
